@@ -284,6 +284,24 @@ pub fn run(ctx: &Ctx) -> PropResult {
             judge_datetime(rec, inner, rng.range_i128(0, D - 1), gen_offset(rng), op, n);
         }
     }));
+    // every case on a brand-new thread: the shift is the first one that thread ever performs (per-thread memo state
+    // empty); starts and targets dense around the era boundary, where "empty" markers such as 0 or -1 are real years
+    wls.push(Workload::cases("fresh_thread_first_shift", ctx.count(3_000, 80_000), |rec, idx, rng| {
+        let day = match rng.below(4) {
+            0 => rng.range_i64(-1200, 1200),
+            1 => cal::days_from_civil(rng.range_i64(-4, 4), rng.below(12) as u32 + 1, 1) + rng.below(31) as i64,
+            2 => cal::days_from_civil(rng.range_i64(1990, 2030), rng.below(12) as u32 + 1, 28) + rng.below(4) as i64,
+            _ => rng.range_i64(cal::MIN_DAY + 2, cal::MAX_DAY - 2),
+        };
+        let op = (idx % 4) as usize;
+        let n = if rng.chance(3, 4) { rng.below(50) as u32 } else { special_counts(rng, day, op) };
+        if idx % 8 < 6 {
+            judge_date(rec, day, op, n);
+        } else {
+            judge_datetime(rec, day.clamp(cal::MIN_DAY + 2, cal::MAX_DAY - 2), rng.range_i128(0, D - 1), gen_offset(rng), op, n);
+        }
+    }).fresh(1));
+    wls.push(Workload::cases("offset_local_twins", ctx.count(4_000, 150_000), |rec, _, rng| super::localzone::twin_case(rec, rng, "C05", super::walk::Family::Months)));
     wls.push(Workload::cases("api_walks", ctx.count(30_000, 1_500_000), |rec, _, rng| super::walk::walk(rec, rng, "C05", super::walk::Family::Months)));
     let out = run_workloads(ctx, wls);
     let mut meta = PropMeta::default();
